@@ -37,6 +37,7 @@ type JobGroup struct {
 	TimeoutMs         int
 	Workers           int
 	Stubs             []string
+	Race              bool // native replay runs under the race detector
 }
 
 type PropertySpec struct {
@@ -61,6 +62,7 @@ type ReplayFile struct {
 	Nondet   []NondetVal         `json:"nondet"`
 	Notes    map[string]string   `json:"notes"`
 	Sig      string              `json:"signature"`
+	Race     bool                `json:"race,omitempty"`
 }
 
 type jobResult struct {
@@ -261,7 +263,7 @@ func cmdCheck(argv []string) int {
 			var rfs []*ReplayFile
 			for _, sig := range order {
 				c := bySig[sig]
-				rf := &ReplayFile{Property: id, Group: g.Name, Overlay: g.Overlay, Pkg: g.Pkg, Entry: g.Entry, Args: jr.args, Kind: c.o.Kind, Msg: c.o.Msg, Site: c.o.Site, Nondet: c.o.Nondet, Notes: c.o.Notes, Sig: sig}
+				rf := &ReplayFile{Property: id, Group: g.Name, Overlay: g.Overlay, Pkg: g.Pkg, Entry: g.Entry, Args: jr.args, Kind: c.o.Kind, Msg: c.o.Msg, Site: c.o.Site, Nondet: c.o.Nondet, Notes: c.o.Notes, Sig: sig, Race: g.Race}
 				rfs = append(rfs, rf)
 			}
 			var confirmed []bool
@@ -471,11 +473,26 @@ func nativeReplay(rfs []*ReplayFile, workDir string) []bool {
 	ovPath := filepath.Join(dir, "overlay.json")
 	os.WriteFile(ovPath, ovb, 0o644)
 
+	voreBin := ""
+	if rf0.Pkg == "main" {
+		// the CLI harness replays against the built binary
+		voreBin = filepath.Join(dir, "vore-under-test")
+		b := exec.Command("go", "build", "-o", voreBin, ".")
+		b.Dir = repoRoot
+		b.Env = goEnv()
+		if out, err := b.CombinedOutput(); err != nil {
+			fmt.Fprintf(os.Stderr, "replay: building the vore binary failed: %v\n%s\n", err, out)
+		}
+	}
 	run := func(only string, timeout time.Duration) (string, bool) {
-		args := []string{"test", "-v", "-vet=off", "-count=1", "-overlay", ovPath, "-run", "^TestVerifReplay$", "-timeout", fmt.Sprintf("%ds", int(timeout.Seconds())), "."}
+		args := []string{"test", "-v", "-vet=off", "-count=1"}
+		if rf0.Race {
+			args = append(args, "-race")
+		}
+		args = append(args, "-overlay", ovPath, "-run", "^TestVerifReplay$", "-timeout", fmt.Sprintf("%ds", int(timeout.Seconds())), ".")
 		cmd := exec.Command("go", args...)
 		cmd.Dir = pkgDir
-		cmd.Env = append(goEnv(), "VREPLAY_ONLY="+only)
+		cmd.Env = append(goEnv(), "VREPLAY_ONLY="+only, "VORE_BIN="+voreBin)
 		var out bytes.Buffer
 		cmd.Stdout = &out
 		cmd.Stderr = &out
@@ -495,9 +512,14 @@ func nativeReplay(rfs []*ReplayFile, workDir string) []bool {
 		}
 	}
 	if len(normal) > 0 {
-		out, _ := run("", 120*time.Second)
+		out, _ := run("", 300*time.Second)
+		raceSeen := strings.Contains(out, "WARNING: DATA RACE")
 		for _, i := range normal {
 			rf := rfs[i]
+			if rf.Race && raceSeen {
+				confirmed[i] = true
+				continue
+			}
 			re := regexp.MustCompile(fmt.Sprintf(`(?m)^VREPLAY %d (\w+)(.*)$`, i))
 			m := re.FindStringSubmatch(out)
 			if m == nil {
